@@ -242,6 +242,38 @@ register("C11",
          "TLA+ decision model checked by TLC + TLC trace validation of the assignment tool on generated placements",
          "DESIGN.md §4 C11")
 
+register("C07",
+         "Two parts. (1) The exact lattice statement: Polytope.tla/TLC decide on integer coordinates that the nodes of every "
+         "level are pairwise distinct, closed under negation and that the canonical half holds exactly one of each "
+         "antipodal pair (C18 binds this to the code); the `Rows` events then show that each polytope grid is the first N "
+         "index-ordered (canonical-half) polytope nodes. (2) For ico, cube3D, randomS (every N in 1..100 quick / 1..642 + "
+         "samples to 2562 thorough), cube4D, randomQ (1..40 / 1..80 + 150, 272), fulldiv and the zero grids, and for every "
+         "algorithm requested BY NAME with N=1, the `Grid` events are validated by TLC: row count, unit norm, pairwise "
+         "distinct, separation >= 1/sqrt(N) resp. 0.6/cbrt(N) with the bound computed in the spec by integer search, every "
+         "rotation row in the canonical half, no two rows one rotation, double cover = rows followed by exact negatives, "
+         "N=1 by name = z direction / identity.",
+         "Norms, minimal pair distances and sign patterns are computed numerically by the harness (numpy) and logged as fixed "
+         "point; sign pattern tolerance 1e-9.",
+         "TLA+ lattice model checked by TLC (shared with C18) + TLC trace validation of static grid facts and prefix relation",
+         "DESIGN.md §4 C07")
+
+register("C08",
+         "GridLife.tla models grid objects, the process-global random generator (abstracted to <last seed, draws since>) and "
+         "getters, with the library's re-seed discipline inside each call; TLC shows for all interleavings of 2 live objects "
+         "x getters x user re-seeding/drawing x dropping that the value of Create(alg,N) and of every getter is a function "
+         "of the specification only (un-seeded random grid and a drawing getter are negative configs). TLC -simulate then "
+         "generates behaviours over a pool of 9 real specifications; they are executed in ONE process with the global "
+         "generator scrambled before every library call, and every returned array (coordinates, volumes, adjacency, "
+         "borders, distances) is compared bitwise (sha256) by the trace spec with reference digests from two FRESH "
+         "processes with other PYTHONHASHSEED and generator state (which must also agree with each other). The prefix "
+         "claim is a trace state: the longest per-row digest sequence per algorithm, against which every N (1..45 + "
+         "level boundaries quick; 1..163 / 1..99 / 1..41 + more thorough) and the polytope's own node order are checked.",
+         "Bitwise comparison between executions of the same code on the same machine; generator observed through "
+         "numpy.random.seed/shuffle/random; the re-seed discipline itself is reported as an advisory count, not a verdict.",
+         "TLA+ interleaving model checked by TLC; TLC -simulate behaviours replayed into the implementation (spec->code) and "
+         "their recorded events validated by a trace spec (code->spec)",
+         "DESIGN.md §4 C08")
+
 ALL = [f"C{i:02d}" for i in range(1, 21)]
 
 
